@@ -299,6 +299,7 @@ class Lexer:
         if carry:
             self.path_stack[-1].path.append(self.source[self.start : self.pos])
             self.start = self.pos
+            self.path_stack[-1].stop = self.pos
 
         while True:
             c = self.next()
